@@ -91,6 +91,10 @@ const prelude = `(declare-sort Str 0)
 (declare-fun strcat (Str Str) Str)
 (declare-fun addrOf (Str) Addr)
 (declare-fun strOf (Addr) Str)
+(declare-sort Ref 0)
+(declare-const nilref Ref)
+(declare-fun reflistN (Ref) Int)
+(declare-fun reflist (Ref) (Array Int Ref))
 (declare-fun validAddr (Str) Bool)
 (declare-fun validDenom (Str) Bool)
 (assert (forall ((s Str)) (! (=> (validAddr s) (= (strOf (addrOf s)) s)) :pattern ((addrOf s)))))
